@@ -233,12 +233,19 @@ theorem xrefLoop_resolve {root : Node} {w : World} {f : Nat} {rs : Bool} {self :
   | fuel + 1, cur, chain, st, v, st', hwf, hin, hal, h => by
     rw [xrefLoop_succ] at h
     cases hstep : xrefStep (evalNodeF root w f) root rs self cur chain st with
-    | next t =>
+    | next t s1 =>
       rw [hstep] at h
       simp only at h
       obtain ⟨_, tp, fl, htp, _, _, hg⟩ := xrefStep_next hstep
-      obtain ⟨fuel', tp', hr, hv, hc⟩ := xrefLoop_resolve fuel t _ st v st' hwf hin hal h
-      exact ⟨fuel' + 1, tp', by rw [xrefResolve_step htp hg]; exact hr, hv, hc⟩
+      obtain ⟨_, _, _, _, hs1⟩ := xrefStep_next_state hstep
+      rcases hs1 with ⟨_, e⟩ | ⟨_, _, e⟩ <;> rw [e] at h
+      · obtain ⟨fuel', tp', hr, hv, hc⟩ := xrefLoop_resolve fuel t _ st v st' hwf hin hal h
+        exact ⟨fuel' + 1, tp', by rw [xrefResolve_step htp hg]; exact hr, hv, hc⟩
+      · obtain ⟨fuel', tp', hr, hv, _⟩ :=
+          xrefLoop_resolve fuel t _ (seeTaint st) v st' hwf.seeTaint hin hal h
+        have hm := xrefLoop_mono (cleanRec_evalNodeF root w f) h
+        refine ⟨fuel' + 1, tp', by rw [xrefResolve_step htp hg]; exact hr, hv, ?_⟩
+        intro e; simp only [seeTaint_unsafeSeen] at hm; omega
     | done r =>
       rw [hstep] at h
       simp only at h
@@ -274,7 +281,9 @@ theorem xrefLoop_resolve {root : Node} {w : World} {f : Nat} {rs : Bool} {self :
           split at hstep
           · cases hstep
           · split at hstep
-            · cases hstep
+            · split at hstep
+              · split at hstep <;> cases hstep
+              · cases hstep
             · rename_i hnx
               injection hstep with hres
               have hc := evalNodeF_cached hres
